@@ -29,7 +29,7 @@ func FuzzC12Merge(f *testing.F) {
 			return
 		}
 		c := MergeCase{Target: target, Patch: patch}
-		if err := guarded(checkC12, c, r); err != nil {
+		if err := guarded(checkC12, c, r); err != nil && !r.Suppress(err) {
 			if _, ok := err.(*rec.Violation); ok {
 				r.WriteFail(c, err)
 			}
